@@ -135,9 +135,8 @@ def cases_mutant(seed, n):
     examples), biased towards the programs on which the real prover applies rules"""
     rng = random.Random(seed + 2)
     progs = gen.named_machines() + TREE_LIKE
-    # ask the real code which of them apply rules within 1000 cycles
-    h = run_sharded(BBH, [f'{i}|prover|{p}|1000' for i, p in enumerate(progs)], 1,
-                    env=dict(os.environ, BBH_THREADS='16'))
+    # ask the MODEL (not the code under test: the corpus must not depend on it) which of them apply rules within 1000 cycles
+    h = run_sharded(BBM, [f'{i}|prover|{p}|1000' for i, p in enumerate(progs)], 16)
     rich = [p for i, p in enumerate(progs)
             if h.get(str(i), 'PANIC') != 'PANIC' and h[str(i)].split('|')[4] != '0']
     cands = []
